@@ -19,6 +19,11 @@ CLAIMED["C13"] = dict(
   note="Trusted: A-ENGINE, A-SMT, A-INT, A-REAL; A-SIMPLE: 'validated chords over a simple input give a simple output' and 'fiN > 0 iff the segments meet' are geometry outside the proof (sufficient-condition obligations). Order-preserving-subsequence is not stated as a postcondition (needs a ghost index map); it is covered only through the per-chord assertions. Known finding (listed, replayed): the closing chord is not tested for intersections.",
   design="DESIGN.md §3 C13")
 
+CLAIMED["C02"] = dict(
+  text="Deductive proof (govc, extended-real arithmetic with IEEE division by zero): pointOnSegment is exactly 'p in the segment's coordinate ranges and collinear' (except p equal to the first endpoint of a non-vertical segment); rayIntersectsSegment equals the half-open crossing rule (lo.Y <= p.Y < hi.Y and p strictly left of the upward edge) for every point whose height differs from both endpoint heights and for the top-vertex height, its nudge loop terminates; pointInPolygon returns OnEdge iff some considered ring (>= 3 vertices, envelope containing the point) has a segment (incl. the implicit closing one) reporting on-segment, and otherwise Inside iff the XOR over considered rings of the per-ring crossing parity; pointInPolygonal / Point.Within combine member polygons first-OnEdge-wins then even-odd; MultiPoint and LineString Within are Outside iff some vertex is Outside. Lemmas (machine-checked by induction) identify the structured parity with the crossing-number parity of the half-open rule for points in general height.",
+  note="Trusted: A-ENGINE, A-SMT, A-INT, A-REAL (no rounding; signed zero not modelled), determinism of rayIntersectsSegment/pointOnSegment as functions of their arguments (definitional abstraction rayRes/posRes), 'odd crossing number = inside' (mathematics). Not decided: the lower-vertex height case of rayIntersectsSegment (needs the size of the Nextafter step, A-NUDGE); harmlessness of the bounding-box skip is mirrored in the spec (considered), not proved separately; MultiLineString.Within and Polygon.Within (reflect.DeepEqual) are not under contract; *Bounds as polygonal argument gets safety only.",
+  design="DESIGN.md §3 C02")
+
 NA = {}
 
 def main():
